@@ -35,7 +35,7 @@ func newEvidence(prop, tier string, seed int) *Evidence {
 	return &Evidence{PropertyID: prop, Tier: tier, Seed: seed, Level: "model_checking", Coverage: map[string]interface{}{},
 		Assumptions: []string{
 			"go/ssa (x/tools v0.29.0) lowers the source faithfully; gosym instruction semantics are validated by native replay of every reported witness",
-			"solver verdicts (z3) are trusted for unsat; sampled path transcripts are re-run through z3 5.x and cvc5",
+			"solver verdicts (z3 5.1.0, binary z3-new) are trusted for unsat; sampled path transcripts are re-run through z3 4.8.12 and cvc5 1.0.3 and the answer sequences compared",
 			"environment intercepts as listed in DESIGN.md section 2.4 (clock non-decreasing, json round trip identity, sync primitives exact at sync-op granularity)",
 			"bounds listed under coverage.bounds are part of the claim; nothing is asserted beyond them",
 		}}
@@ -63,13 +63,16 @@ func (ev *Evidence) addSample(kind, harness, label string, t *engine.Tape, rr *r
 // crossCheck re-runs one recorded solver transcript through the other solvers and
 // compares the sequence of check-sat answers.
 func (ev *Evidence) crossCheck(script string) {
+	if d := os.Getenv("GOSYM_DUMP_TRANSCRIPTS"); d != "" {
+		os.WriteFile(filepath.Join(d, fmt.Sprintf("t%d.smt2", len(ev.cross))), []byte(script), 0o644)
+	}
 	script = "(set-option :produce-models true)\n" + script
-	ref, err := engine.RunScript("z3", []string{"-in"}, script, 120*time.Second)
+	ref, err := engine.RunScript("z3-new", []string{"-in"}, script, 120*time.Second)
 	entry := map[string]interface{}{"queries": len(ref)}
 	if err != nil {
-		entry["z3"] = "error: " + err.Error()
+		entry["z3-new"] = "error: " + err.Error()
 	}
-	for _, s := range [][]string{{"z3-new", "-in"}, {"cvc5", "--incremental", "--lang=smt2", "--tlimit-per=30000"}} {
+	for _, s := range [][]string{{"z3", "-in"}, {"cvc5", "--incremental", "--lang=smt2", "--tlimit-per=30000"}} {
 		sc := script
 		if s[0] == "cvc5" {
 			sc = "(set-logic ALL)\n" + script
